@@ -15,7 +15,7 @@ pub fn def() -> PropDef {
         run_unit,
         replay,
         required_probes: &["Parse_NoDot", "Parse_DotLast", "Parse_DotInside", "Parse_Exponent"],
-        rule: "exhaustive: every string of length 0..L over the 11-symbol alphabet {0,1,7,+,-,.,e,E,_,x,space} (L=6 quick, L=8 thorough) through from_str, compared with a byte-level reference recogniser written from the statement (accept/reject and exact (digits, scale)); seeded: grammar-generated numerals up to 5000 digits with underscores, exponents around +-(2^63+-2), 2^127 and 40-digit exponents, byte-level mutations of valid numerals (signs, dots, underscores, NUL, space, non-ASCII digits, multi-byte chars) through from_str, str::parse, from_str_radix(s,10), parse_bytes (also invalid UTF-8), and radix != 10. distinct = distinct input strings; non-trivial = strings containing at least one digit (both accepted and rejected ones)",
+        rule: "exhaustive: every string of length 0..L over the 11-symbol alphabet {0,1,7,+,-,.,e,E,_,x,space} (L=7 quick, L=8 thorough) through from_str, compared with a byte-level reference recogniser written from the statement (accept/reject and exact (digits, scale)); seeded: grammar-generated numerals up to 5000 digits with underscores, exponents around +-(2^63+-2), 2^127 and 40-digit exponents, byte-level mutations of valid numerals (signs, dots, underscores, NUL, space, non-ASCII digits, multi-byte chars) through from_str, str::parse, from_str_radix(s,10), parse_bytes (also invalid UTF-8), and radix != 10. distinct = distinct input strings; non-trivial = strings containing at least one digit (both accepted and rejected ones)",
     }
 }
 
@@ -28,9 +28,9 @@ fn count_strings(max_len: u32) -> u64 {
 fn plan(tier: Tier) -> Vec<Unit> {
     match tier {
         Tier::Quick => {
-            let mut v = crate::util::split_budget("exhaustive", count_strings(6), 40_000);
-            v.extend(crate::util::split_budget("numerals", 20_000, 500));
-            v.extend(crate::util::split_budget("mutations", 60_000, 2_000));
+            let mut v = crate::util::split_budget("exhaustive", count_strings(7), 200_000);
+            v.extend(crate::util::split_budget("numerals", 60_000, 1_000));
+            v.extend(crate::util::split_budget("mutations", 400_000, 5_000));
             v
         }
         Tier::Thorough => {
@@ -224,7 +224,7 @@ fn gen_numeral(r: &mut Rng) -> String {
         1 => s.push('-'),
         _ => {}
     }
-    let lmax = if r.chance(1, 25) { 5000 } else if r.chance(1, 5) { 300 } else { 30 };
+    let lmax = if cfg!(miri) { 40 } else if r.chance(1, 25) { 5000 } else if r.chance(1, 5) { 300 } else { 30 };
     let int_len = if r.chance(1, 6) { 0 } else { gen::length(r, lmax) };
     let frac_len = if r.chance(1, 3) { 0 } else { gen::length(r, lmax) };
     // separator density: none (half of the numerals), dense, or sparse
@@ -348,7 +348,7 @@ fn run_unit(unit: &Unit, r: &mut Rng, ctx: &mut Ctx) {
             ctx.enumerated_nontrivial += nontrivial;
             ctx.end_case(case.hash(), false);
             if unit.start == 0 {
-                ctx.exhaustive_notes.push("C05: every string up to the tier's length bound over the alphabet {0,1,7,+,-,.,e,E,_,x,space} (length <= 6: 1 948 717 strings; length <= 8: 235 794 769)".into());
+                ctx.exhaustive_notes.push("C05: every string up to the tier's length bound over the alphabet {0,1,7,+,-,.,e,E,_,x,space} (length <= 7: 21 435 888 strings; length <= 8: 235 794 769)".into());
             }
         }
         "numerals" => {
